@@ -57,6 +57,13 @@ def handle : List String → Option String
       let ps ← (scripts.splitOn "|").mapM conds?
       let u := labelsUnion c (← Driver.C07.str? col) l ps
       some s!"{hexOut u.render} {unionConfined lokiCfg (winProf c) u} {profOk c}"
+    | "seriesunion", [labels, scripts] => do
+      let ps ← (scripts.splitOn "|").mapM conds?
+      let u := seriesUnion c (← bytesList? labels) ps
+      some s!"{hexOut u.render} {unionConfined lokiCfg (winProf c) u} {profOk c}"
+    | "analyze", [sl] => do
+      let (g, k) ← conds? sl
+      some (out c (analyzeQuery c g k))
     | "labelnames", [] => some (out c (labelsNoSel c "key" none))
     | "labelvalues", [l] => do some (out c (labelsNoSel c "val" (some (← ofHex l))))
     | _, _ => none
